@@ -91,7 +91,7 @@ class C12(Prop):
     anchors = ["aioswitcher.schedule.tools:weekdays_to_hexadecimal", "aioswitcher.schedule.tools:bit_summary_to_days"]
     min_evaluations = {"quick": 3600, "thorough": 3600}
     exhaustive = {"quick": True, "thorough": True}
-    nshards = {"quick": 2, "thorough": 2}
+    nshards = {"quick": 16, "thorough": 16}     # (cheap; sixteen different first-use schedules for the two-thread probes)
 
     def worker_pyflags(self, shard, nshards=1):
         # the complete enumeration once more under python -O (rejections written as assertions vanish there);
@@ -397,7 +397,8 @@ class C12(Prop):
         D, t = self.Days, self.tools
         sa, sb = {D.MONDAY, D.SUNDAY}, [D.TUESDAY, D.WEDNESDAY, D.FRIDAY]
         enc = lambda names: f"{mask_of(names):02x}"
-        return [("decode(0x02) || decode(0x08)", lambda: t.bit_summary_to_days(0x02), lambda: t.bit_summary_to_days(0x08), expect({D.MONDAY}), expect({D.WEDNESDAY})),
+        # (the preempting call of the first pair needs every day: whatever is built lazily at first use must be complete for it)
+        return [("decode(0x02) || decode(0xfe)", lambda: t.bit_summary_to_days(0x02), lambda: t.bit_summary_to_days(0xFE), expect({D.MONDAY}), expect(set(D))),
                 ("decode(0x54) || decode(0x54)", lambda: t.bit_summary_to_days(0x54), lambda: t.bit_summary_to_days(0x54),
                  expect({D.TUESDAY, D.THURSDAY, D.SATURDAY}), expect({D.TUESDAY, D.THURSDAY, D.SATURDAY})),
                 ("decode(0x08) || decode(0x02)", lambda: t.bit_summary_to_days(0x08), lambda: t.bit_summary_to_days(0x02), expect({D.WEDNESDAY}), expect({D.MONDAY})),
